@@ -12,7 +12,7 @@ import numpy
 from hypothesis import strategies as st
 
 from .. import vlog
-from ..core import sstr, Failure, drive, drive_enum
+from ..core import peek, sstr, Failure, drive, drive_enum
 
 ID = "C20"
 LEVEL = "exploration"
@@ -97,7 +97,7 @@ class Env(object):
 
     def state(self):
         return (
-            tuple((k, id(v), v.is_finished, id(v._result)) for k, v in self.prog.commands.items()),
+            tuple((k, id(v), v.is_finished, id(peek(v))) for k, v in self.prog.commands.items()),
             tuple(sorted((k, id(v)) for k, v in self.prog.command_library.items())),
             self.prog.working_dir,
         )
@@ -299,7 +299,7 @@ def ref_clean(pspec, raw, env):
         if out is None:
             return cmd
         if meta["finished"]:
-            ref_clean({"c": out, "of": {"c": "Parameter"}, "must_exist": False}, cmd._result, env)  # may raise
+            ref_clean({"c": out, "of": {"c": "Parameter"}, "must_exist": False}, peek(cmd), env)  # may raise
             return cmd
         declared = meta["out"]
         if declared is None:
